@@ -1,4 +1,38 @@
-import XPathV.Model.Api
-/-! # Property C05 — theorems (placeholder header; filled in below) -/
+import XPathV.Lemmas.Facts
+import XPathV.Model.Conc
+/-!
+# C05 — one compiled expression may be used from many goroutines at once (partial)
+
+What is logic here: evaluations share nothing mutable except lock-protected state.  `Model/Conc`
+proves, for abstract threads with read/write footprints, that disjoint footprints make every
+interleaving equivalent to the sequential runs (`Conc.interleave_independent`).  The instantiation
+below is over the footprint facts re-read from the source (F7, F8, F15).  The Go memory model, the
+scheduler, `sync.RWMutex`/`sync.Pool` and the race detector are not modelled: actual races are
+looked for by the `-race` run of the harness, which is evidence, not proof.
+-/
 namespace XPathV.Theorems.C05
+open XPathV XPathV.Facts
+
+/-- T0 (F8): no function literal of func.go/build.go assigns a variable it captured from a scope
+shared between evaluations -/
+theorem no_shared_closure_writes : closureWritesOk Generated.closureWrites = true := by decide
+
+/-- T0 (F8): no function assigns a package-level variable after initialisation -/
+theorem globals_not_written : globalsOk Generated.globals = true := by decide
+
+/-- T0 (F8): every write to a `loadingCache` field sits between `Lock()` and `Unlock()` -/
+theorem cache_writes_locked : lockedOk Generated.lockedWrites = true := by decide
+
+/-- T0 (F15, F7): both entry points work on a clone and clones share no iteration state -/
+theorem evaluations_share_no_state : Generated.selectClones = true ∧ Generated.evaluateClonesBeforeEval = true ∧
+    Generated.structs.all cloneOk = true := by decide
+
+/-- threads whose footprints are pairwise disjoint compute, under every interleaving, what they
+compute alone (generic lemma, instantiated by the facts above) -/
+theorem concurrent_equals_sequential (fa fb : Model.Conc.Loc → Bool) (hd : ∀ l, fa l = true → fb l = false)
+    (as bs cs : List Model.Conc.Step) (ha : Model.Conc.Within fa as) (hb : Model.Conc.Within fb bs)
+    (hi : Model.Conc.Interleave as bs cs) :
+    ∀ s, ∀ l, fa l = true → Model.Conc.runSeq cs s l = Model.Conc.runSeq as s l :=
+  Model.Conc.interleave_independent fa fb hd as bs cs ha hb hi
+
 end XPathV.Theorems.C05
